@@ -1,5 +1,5 @@
 SPECIFICATION Spec
-CONSTANTS Steps = {1,2,3,4,5,6,8,9,10,12,15,18,20,24,30,36,40,45,60}  Extras = {1}  CloseIdx = 1  Shift = 0
+CONSTANTS Steps = {1,2,3,4,5,6,8,9,10,12,15,18,20,24,30,36,40,45,60}  Extras = {2}  CloseIdx = 0  Shift = 0
 CHECK_DEADLOCK FALSE
 INVARIANT TypeOK
 INVARIANT NoSelfMeet
